@@ -1,8 +1,13 @@
 #!/bin/sh
-# usage: tools_try_mutant.sh <patch> <prop> [extra check args]   -- applies a seeded change to /repo, runs the quick check, reverts
+# usage: tools/try_mutant.sh <patch> <prop> [extra check args]
+# applies a seeded change to a SCRATCH worktree of /repo's HEAD (never to /repo itself: other jobs read it), runs the quick check on it, removes it
 patch="$1"; prop="$2"; shift 2
-git -C /repo apply "$patch" 2>/dev/null || git -C /repo apply -C1 --recount "$patch" 2>/dev/null || (cd /repo && patch -p1 -s --no-backup-if-mismatch < "$patch") || { echo "patch does not apply"; git -C /repo checkout -- .; exit 9; }
-./check "$prop" --quick "$@" > /tmp/mut_out.txt 2>&1; rc=$?
-git -C /repo checkout -- .
-grep -E "^(VIOLATION|UNDECIDED|ERROR|OUT-OF-REACH|KNOWN|C[0-9]+ quick)" /tmp/mut_out.txt | cut -c1-300 | head -12
+wt=$(mktemp -d /tmp/mutrepo_XXXXXX); rmdir "$wt"
+git -C /repo worktree add -q --detach "$wt" HEAD || exit 9
+( git -C "$wt" apply "$patch" 2>/dev/null || git -C "$wt" apply -C1 --recount "$patch" 2>/dev/null || (cd "$wt" && patch -p1 -s --no-backup-if-mismatch < "$patch") ) || { echo "patch does not apply"; git -C /repo worktree remove --force "$wt"; exit 9; }
+out=$(mktemp /tmp/mut_out_XXXXXX)
+PVC_REPO="$wt" PVC_EVIDENCE_DIR=$(mktemp -d /tmp/mut_ev_XXXXXX) ./check "$prop" --quick "$@" > "$out" 2>&1; rc=$?
+git -C /repo worktree remove --force "$wt"
+grep -E "^(VIOLATION|UNDECIDED|ERROR|OUT-OF-REACH|NOTE|C[0-9]+ quick)" "$out" | cut -c1-260 | head -10
+rm -f "$out"
 echo "rc=$rc"
